@@ -14,7 +14,7 @@ inductive Family where
   | monthlyWeekno | weeklyWeekno
   | hourly | hourlyByhour | minutely | minutelyByminute | minutelyByhour | minutelyByhm | secondly | secondlyByhm | secondlyBysecond
   | dailyE | hourlyE | hourlyByhourE | minutelyE | minutelyByminuteE | minutelyByhourE | minutelyByhmE
-  | secondlyE | secondlyByhmE | secondlyBysecondE
+  | secondlyE | secondlyByhmE | secondlyBysecondE | monthlyEaster | weeklyEaster
   deriving Repr, DecidableEq, Inhabited
 
 def Family.name : Family → String
@@ -27,14 +27,14 @@ def Family.name : Family → String
   | .minutelyE => "minutely_easter" | .minutelyByminuteE => "minutely_byminute_easter"
   | .minutelyByhourE => "minutely_byhour_easter" | .minutelyByhmE => "minutely_byhour_byminute_easter"
   | .secondlyE => "secondly_easter" | .secondlyByhmE => "secondly_byhour_byminute_easter"
-  | .secondlyBysecondE => "secondly_bysecond_easter"
+  | .secondlyBysecondE => "secondly_bysecond_easter" | .monthlyEaster => "monthly_easter" | .weeklyEaster => "weekly_easter"
 
 def Family.all : List Family :=
   [.daily, .weekly, .yearlyMonthly, .monthlyNth, .yearlyNth, .yearlyBymonthNth, .yearlyEaster, .yearlyWeekno,
    .monthlyWeekno, .weeklyWeekno,
    .hourly, .hourlyByhour, .minutely, .minutelyByminute, .minutelyByhour, .minutelyByhm, .secondly, .secondlyByhm, .secondlyBysecond,
    .dailyE, .hourlyE, .hourlyByhourE, .minutelyE, .minutelyByminuteE, .minutelyByhourE, .minutelyByhmE,
-   .secondlyE, .secondlyByhmE, .secondlyBysecondE]
+   .secondlyE, .secondlyByhmE, .secondlyBysecondE, .monthlyEaster, .weeklyEaster]
 
 /-- the optional list is given, non-empty, and satisfies `P` -/
 def someWith {α} (o : Option (List α)) (P : List α → Prop) : Prop :=
@@ -82,7 +82,7 @@ instance (a : Args) : Decidable (wArgOk a) := by unfold wArgOk; exact inferInsta
 
 /-- MINUTELY with BYHOUR: some minute of the grid (orbit of the start under `+INTERVAL`, which repeats after at most
     1440 steps) falls in a listed hour — what a `__construct_byset`-style search over the grid would find.  On the
-    complement the rule is empty and `_iter` raises ValueError at the first `next()` (D-C01g). -/
+    complement the rule is empty and `_iter` raises ValueError at the first `next()` (allowed by the property). -/
 def reachableHourM (a : Args) : Prop :=
   (List.range 1440).any (fun j =>
     (a.byhour.getD []).contains ((a.dtstart.hh * 60 + a.dtstart.mm + (j : Int) * a.interval) / 60 % 24)) = true
@@ -191,6 +191,11 @@ def SupportedBy (a : Args) : Family → Prop
       reachableS a
   | .secondlyBysecondE => a.freq = 6 ∧ ebaseOk a ∧ optNonempty a.byhour ∧ optNonempty a.byminute ∧ a.bysecond ≠ none ∧
       reachableSS a
+  | .monthlyEaster => a.freq = 1 ∧ ebaseOk a ∧ plainDays a
+  | .weeklyEaster => a.freq = 2 ∧ baseOk a ∧ a.byweekno = none ∧
+      someWith a.byeaster (fun el => ∀ o ∈ el, -74 ≤ o ∧ o ≤ 250) ∧
+      (a.bysetpos = none ∨ Cal.weekdayOfOrd (Spec.RRule.startOrd a) = a.wkst.getD 0) ∧
+      (0 ≤ a.wkst.getD 0 ∧ a.wkst.getD 0 ≤ 6) ∧ untilOk a
 
 instance (a : Args) (f : Family) : Decidable (SupportedBy a f) := by
   cases f <;> (unfold SupportedBy; exact inferInstance)
@@ -249,11 +254,14 @@ def inRange (a : Args) (f : Family) (n : Nat) : Prop :=
   | .secondlyByhmE | .secondlyBysecondE => 1583 ≤ a.dtstart.y ∧
       ((Spec.RRule.startOrd a * 24 + a.dtstart.hh) * 60 + a.dtstart.mm) * 60 + a.dtstart.ss +
       (172800 * n + 86400) * a.interval + 86399 < (Cal.toOrdinal 4099 12 31 + 1) * 86400
+  | .monthlyEaster => 1583 ≤ a.dtstart.y ∧ (a.dtstart.y * 12 + (a.dtstart.m - 1) + n * a.interval) / 12 ≤ 4099
+  | .weeklyEaster => 1583 ≤ a.dtstart.y ∧
+      Spec.RRule.weekStart (a.wkst.getD 0) (Spec.RRule.startOrd a) + 7 * (n * a.interval) + 7 ≤ Cal.toOrdinal 4099 12 31 + 1
 
 /-- the BYEASTER-below-YEARLY families -/
 def Family.isEasterSub : Family → Bool
   | .dailyE | .hourlyE | .hourlyByhourE | .minutelyE | .minutelyByminuteE | .minutelyByhourE | .minutelyByhmE
-  | .secondlyE | .secondlyByhmE | .secondlyBysecondE => true
+  | .secondlyE | .secondlyByhmE | .secondlyBysecondE | .monthlyEaster | .weeklyEaster => true
   | _ => false
 
 end RRule
